@@ -366,7 +366,7 @@ func (c *Ctx) ruleIgnoreSetContains() {
 			continue
 		}
 		// final false: after the scoped phase completed without match (closure continues) — or loop-continue stores
-		if blk.Parent() != fn {
+		if bp := blk.Parent(); bp.Parent() != nil || bp.Synthetic == "range-over-func yield" {
 			c.fail("IGNORESET/OUTCOME", cons, where, "loop body stores `false` as the result: the search stops at the first non-matching token/marker")
 			continue
 		}
